@@ -8,6 +8,7 @@ DEMO_CMD="cargo test -p anemo --offline --test mutant_demo"
 [ -f $M/DEMO_CMD ] && DEMO_CMD="$(cat $M/DEMO_CMD)"
 git checkout -- crates >/dev/null 2>&1
 rm -f crates/*/tests/mutant_demo.rs
+mkdir -p crates/anemo/tests crates/anemo-tower/tests
 [ -f "$M/mutant_demo.rs" ] && [ ! -f "$M/demo_mod.diff" ] && cp "$M/mutant_demo.rs" "$(if grep -q anemo-tower "$M/DEMO_CMD" 2>/dev/null; then echo crates/anemo-tower/tests; else echo crates/anemo/tests; fi)/mutant_demo.rs"
 git apply $M/patch.diff || { echo "CONFIRM $D $M patch-does-not-apply"; exit 1; }
 DEMO=$(ls crates/*/tests/mutant_demo.rs 2>/dev/null | head -1)
@@ -19,3 +20,4 @@ if $DEMO_CMD >/tmp/$B.demo1.log 2>&1; then echo "CONFIRM $D $M demo-with-change=
 git apply -R $M/patch.diff
 if $DEMO_CMD >/tmp/$B.demo2.log 2>&1; then echo "CONFIRM $D $M demo-without-change=PASS(expected)"; else echo "CONFIRM $D $M demo-without-change=FAIL(unexpected)"; fi
 git checkout -- crates >/dev/null 2>&1; rm -f crates/*/tests/mutant_demo.rs
+rmdir crates/anemo/tests crates/anemo-tower/tests 2>/dev/null; true
